@@ -228,6 +228,17 @@ def files(ctx: Ctx):
              'cds_mut': ['snvre', 'inframe'], 'allow_short_cds': False}
     designs = [gen.gen_sge(ctx.rng, focus) for _ in range(n)]
     designs += [gen.gen_cdna(ctx.rng, {}) for _ in range(n // 4)]
+    # tiny targetons that are their own region 2: the deletion of SPAN = targeton length leaves an empty oligonucleotide (still a row)
+    for _ in range(max(4, n // 12)):
+        d = gen.gen_sge(ctx.rng, {'p_bg': 0.0, 'p_custom': 0.0, 'p_pam': 0.0, 'p_gtf': 0.0, 'n_targetons': 1})
+        L = ctx.rng.randint(1, 6)
+        s0 = ctx.rng.randint(5, len(d['ref']) - 20)
+        lab = '1del' if L == 1 and ctx.rng.random() < 0.5 else f'{L}del0'
+        d['targetons'] = [dict(d['targetons'][0], ref_start=s0, ref_end=s0 + L - 1, r2_start=s0, r2_end=s0 + L - 1, ext=[0, 0],
+                               action=['', ', '.join(sorted({lab, ctx.rng.choice(['snv', '1del', lab])})), ''], sgrna=[])]
+        for k in ('pam', 'vcfs', 'bg', 'mask'):
+            d.pop(k, None)
+        designs.append(d)
     # alias pairs (1del with 1del0, 2del with 2del0) stay in: one mutator, its rows once (defect repaired in 3846a61); a fifth of the
     # groups with a parametric deletion get the other spelling added
     for d in designs:
